@@ -1,4 +1,5 @@
 import BU.Py
+import BU.Crypto.Secp256k1
 /-! PyRT, part 2 — list-of-int operations, `^`, `ord`, `range` for the translated loops (`for`, bounded `while`,
 comprehensions).  Kept apart from `BU/Py.lean` so that the files that only need byte strings do not depend on it.
 Mathlib-free. -/
@@ -31,6 +32,22 @@ def ord (c : Char) : Int := c.toNat
 
 /-- Python `range(n)` as a list -/
 def range (n : Int) : List Int := (List.range n.toNat).map Int.ofNat
+
+/-- the accessors `x(P)` / `y(P)` of schnorr.py: `assert not is_infinite(P); return P[0]` (`P[1]`) -/
+def ptX : Option (Int × Int) → Except PyErr Int
+  | some (x, _) => .ok x
+  | none => .error .assertion
+def ptY : Option (Int × Int) → Except PyErr Int
+  | some (_, y) => .ok y
+  | none => .error .assertion
+
+/-- Python's three-argument `pow(b, e, m)` for `e ≥ 0`, `m > 0` (the result lies in `[0, m)` whatever the sign of `b`);
+`m = 0` raises ValueError; negative exponents / moduli are outside the translated subset.  Evaluated by
+square-and-multiply (`Secp.powMod`), so that the generated code stays executable on 256-bit exponents. -/
+def powMod (b e m : Int) : Except PyErr Int :=
+  if m = 0 then .error .valueError
+  else if e < 0 ∨ m < 0 then .error .other
+  else .ok ((Secp.powMod (b % m).toNat e.toNat m.toNat : Nat) : Int)
 
 @[simp] theorem lxor_ofNat (a b : Nat) : lxor (a : Int) (b : Int) = ((a ^^^ b : Nat) : Int) := rfl
 @[simp] theorem range_ofNat (n : Nat) : range (n : Int) = (List.range n).map Int.ofNat := by simp [range]
